@@ -246,3 +246,62 @@ pub fn bad_unsigned_counter(xs: &[u8]) -> u64 {
     }
     depth
 }
+pub fn ok_dead_arm_guarded(value: u8) -> u8 {
+    if value >= 18 {
+        return 0;
+    }
+    match value / 6 {
+        0 => 10,
+        1 => 11,
+        2 => 12,
+        _ => unreachable!(),
+    }
+}
+pub fn ok_dead_arm_rem(value: u32) -> u8 {
+    match (value % 6) / 2 {
+        0 => 10,
+        1 => 11,
+        2 => 12,
+        _ => unreachable!(),
+    }
+}
+pub fn ok_dead_arm_mask(value: u8) -> u8 {
+    match value & 3 {
+        0 => 1,
+        1 => 2,
+        2 => 3,
+        3 => 4,
+        _ => unreachable!(),
+    }
+}
+pub fn bad_dead_arm_off_by_one(value: u8) -> u8 {
+    if value > 18 {
+        return 0;
+    }
+    match value / 6 {
+        0 => 10,
+        1 => 11,
+        2 => 12,
+        _ => unreachable!(),
+    }
+}
+pub fn bad_dead_arm_reassigned(mut value: u8, k: u8) -> u8 {
+    if value >= 18 {
+        return 0;
+    }
+    value = value.wrapping_add(k);
+    match value / 6 {
+        0 => 10,
+        1 => 11,
+        2 => 12,
+        _ => unreachable!(),
+    }
+}
+pub fn bad_dead_arm_signed(value: i8) -> u8 {
+    match value % 3 {
+        0 => 10,
+        1 => 11,
+        2 => 12,
+        _ => unreachable!(),
+    }
+}
